@@ -185,3 +185,26 @@ unit(id="reduce.exec", src=REDUCE, path=[("impl", "Exec for Reduce"), ("fn", "ex
          ("reduce.exec.is_the_left_fold_over_the_elements_of_the_continuing_pulls_in_pull_order", ["C11"], None),
          ("reduce.exec.stops_at_the_first_pull_that_ends_the_sequence", ["C11"], None),
      ])
+
+# ---------------------------------------------------------------- [value; len] : recreate --------------------------
+_OKI, _v_S = _v.OKI, None
+ARV = f"rec_res(self.value.instruction, {RS0})"
+ARVS = f"rec_st(self.value.instruction, {RS0})"
+ARL = f"rec_res(self.len.instruction, {ARVS})"
+ARLS = f"rec_st(self.len.instruction, {ARVS})"
+_SAME_ELEMS = ("(forall|s: int| (#[trigger] eval_res(r->Ok_0, s) == arrayrepeat_res(*self, s)) "
+               "|| (eval_res(r->Ok_0, s) is Ok && arrayrepeat_res(*self, s) is Ok && eval_res(r->Ok_0, s)->Ok_0 is Array "
+               "&& eval_res(r->Ok_0, s)->Ok_0->Array_0.elems@ =~= arrayrepeat_res(*self, s)->Ok_0->Array_0.elems@))")
+unit(id="arrayrepeat.recreate", src="src/instruction/array_repeat.rs", path=[("impl", "Recreate for ArrayRepeat"), ("fn", "recreate")],
+     impl="ArrayRepeat", stubs=["iws.recreate", "arrayrepeat.create_from_instructions"], fragments=["opspecs", "semantics"],
+     broadcast=["sem_axioms::sem", "sem_axioms4::sem4"],
+     ensures=[
+         ("arrayrepeat.recreate.value_then_length_folded_errors_stop", ["C04", "C07"],
+          f"({ARV} is Err ==> r == Err::<Instruction, ExecError>({ARV}->Err_0) && {RS9} == {ARVS}) "
+          f"&& ({ARV} is Ok && {ARL} is Err ==> r == Err::<Instruction, ExecError>({ARL}->Err_0)) "
+          f"&& ({ARV} is Ok ==> {RS9} == {ARLS})"),
+         ("arrayrepeat.recreate.unobservable", ["C04", "C07"],
+          f"r is Ok ==> {_SAME_ELEMS} && (forall|s: int| #[trigger] eval_st(r->Ok_0, s) == arrayrepeat_st(*self, s))"),
+         ("arrayrepeat.recreate.early_error_only_if_every_evaluation_fails", ["C04"],
+          f"r is Err && {ARV} is Ok && {ARL} is Ok ==> (forall|s: int| #[trigger] arrayrepeat_res(*self, s) is Err)"),
+     ])
